@@ -281,8 +281,17 @@ pub fn worker(scn: &dyn Scenario, tier: Tier, base_seed: u64, wid: u64, nworkers
     let mut sum = WorkerSummary::default();
     let mut sigset: BTreeSet<u64> = BTreeSet::new();
     let mut idx = wid;
+    // DSIM_SWEEP=1 (seeded/sweep.sh only; registered commands never set it): the question is
+    // merely WHETHER the check fires, so a worker stops after its third run with a violation that
+    // is not a known finding
+    let sweep = std::env::var("DSIM_SWEEP").is_ok();
+    let known = KnownFindings::load(&env.verif);
     while idx < total {
         if start.elapsed().as_secs() > deadline_s {
+            sum.stopped_early = true;
+            break;
+        }
+        if sweep && sum.failures.iter().filter(|f| f.violations.iter().any(|v| known.lookup(scn.property(), &scn.finding_key(&f.plan, v)).is_none())).count() >= 3 {
             sum.stopped_early = true;
             break;
         }
@@ -434,6 +443,9 @@ pub fn check(prop: &str, scenarios: &[&'static dyn Scenario], tier: Tier, level:
     };
 
     for scn in scenarios {
+        if std::env::var("DSIM_SWEEP").is_ok() && failures.iter().any(|(s, f)| f.violations.iter().any(|v| known.lookup(prop, &s.finding_key(&f.plan, v)).is_none())) {
+            break; // sweep mode: one firing scenario answers the question
+        }
         let t0 = Instant::now();
         let tmpdir = format!("{}/drv-{}-{}", env.shm, std::process::id(), scn.name());
         let _ = std::fs::create_dir_all(&tmpdir);
@@ -531,7 +543,7 @@ pub fn check(prop: &str, scenarios: &[&'static dyn Scenario], tier: Tier, level:
                 continue;
             }
             reported.insert(class);
-            let budget = if v.oracle == "no-hang" { 900 } else { 90 };
+            let budget = if std::env::var("DSIM_SWEEP").is_ok() { 0 } else if v.oracle == "no-hang" { 900 } else { 90 };
             let (minplan, msteps) = minimise(*scn, &f.plan, &v.oracle, &env, budget);
             // verify the minimised file in a fresh child; fall back to the original
             let (final_plan, final_v, verified) = match still_fails(*scn, &minplan, &v.oracle, &env) {
